@@ -1386,6 +1386,32 @@ func generateScenarios(prop string, seed uint64, n int, adv bool) []*scenario {
 		r, s := root.Fork()
 		g := &gen{r: r, adv: adv, oddMethods: prop == "C06", twins: prop == "C06" || prop == "C03" || prop == "C02" || prop == "C04"}
 		switch {
+		case (prop == "C02" || prop == "C04") && i%16 == 14:
+			// the parent is deleted and created again under its old name (a new UID) before a sync; its former
+			// children are still there, controlled by the old UID: somebody else's as far as the new parent goes
+			sc := g.basic("successor", i, s)
+			for tries := 0; tries < 60 && (len(sc.Hook.Children) == 0 || sc.Hook.PlainOwnerRef || sc.hasFeature("selector-empty-content")); tries++ {
+				sc = g.basic("successor", i, s)
+			}
+			sc.Warmup, sc.Setup = true, nil
+			p := sc.parentRef()
+			p.Op = "recreate"
+			sc.Rounds = []roundSpec{{PreOps: []extOp{p}}, {}}
+			if r.Chance(1, 3) {
+				sc.Rounds = []roundSpec{{LateOps: []extOp{p}}, {}}
+				sc.Features = []string{"parent-recreated-after-cache"}
+			} else {
+				sc.Features = nil
+			}
+			if r.Bool() {
+				// the hook of the new parent wants nothing (or something else): nothing of the predecessor's is deleted
+				h2 := sc.Hook
+				h2.Children = nil
+				sc.Hook2 = &h2
+				sc.Features = append(sc.Features, "hook-changes-mind")
+			}
+			sc.Features = append(sc.Features, "parent-recreated-same-name", "children-of-the-predecessor-left-behind")
+			out = append(out, sc)
 		case (prop == "C12" && i%12 == 1) || (prop == "C04" && i%16 == 3):
 			// orphans to adopt, and the live read of the parent that must precede an adoption fails: gone, or a
 			// transient server error (the cache is no substitute: it may show a parent that is being deleted)
